@@ -23,7 +23,7 @@ from sa import sx as sxm
 from sa.algebra import Rat
 from sa.core import AnalysisError
 from sa.spec.si import DIMS, SUBKINDS, si_factor
-from sa.sx import SX, Q, N, U, Ov, Uv, Unk, Bsym, Bv, G, Outcome, State, CannotDecide, make_cmp, static_truth
+from sa.sx import SX, Q, N, U, Ov, Uv, Sv, Unk, Bsym, Bv, G, Outcome, State, CannotDecide, make_cmp, static_truth
 from sa.units import UnitTables, rat_to_float
 
 REL_TOL = Fraction(1, 10 ** 12)
@@ -99,6 +99,110 @@ def _unit_name(u):
     return None
 
 
+def _judge_to_outcome(sx, model, kind, o, S0, tgt, Ft, subst, problems, copy_vals, inplace_vals):
+    """one completed path of a to(): `tgt` is the name of the target unit (symbolic 'target_unit' or a literal unit),
+    `Ft` its SI factor, `S0` the SI magnitude before the call"""
+    ctx = sx.ctx
+    if o.kind == 'fall':
+        problems.append((o.loc, 'a path falls off the end of to() without returning a quantity'))
+        return
+    stores = [e for e in o.state.effects if e[0] == 'store' and e[1] == 'self']
+    v = o.value
+    if isinstance(v, Q):
+        if v.kind != kind:
+            problems.append((o.loc, f'copying conversion returns a {v.kind}, not a {kind}'))
+        if stores:
+            problems.append((o.loc, 'copying conversion modifies the receiver'))
+        if v.unit is None or (v.unit.sym if v.unit.sym is not None else v.unit.lit) != tgt:
+            problems.append((o.loc, f'result is labelled {v.unit!r}, not the target unit'))
+        t = ctx.subst(v.term, subst) if subst else v.term
+        if not ctx.eq(t, S0):
+            problems.append((o.loc, f'copying conversion changes the SI magnitude: '
+                                    f'{ctx.show(ctx.reduce(t))[:160]} instead of {ctx.show(S0)[:80]}'))
+        copy_vals.append(ctx.subst(v.term / Ft, subst) if subst else v.term / Ft)
+    elif isinstance(v, Ov) and v.path == 'self':
+        try:
+            v1, u1 = _final_value_unit(sx, kind, o.state)
+        except CannotDecide as e:
+            problems.append((o.loc, f'state after in-place conversion not readable: {e}'))
+            return
+        if _unit_name(u1) != tgt:
+            problems.append((o.loc, f'in-place conversion leaves unit {_unit_name(u1)!r}, not the target unit'))
+        t = v1.term * Ft
+        t = ctx.subst(t, subst) if subst else t
+        if not ctx.eq(t, S0):
+            problems.append((o.loc, f'in-place conversion changes the SI magnitude: value becomes '
+                                    f'{ctx.show(ctx.reduce(v1.term))[:160]}'))
+        # all private copies must agree
+        vals = [e for e in stores if e[2].endswith('__value')]
+        units = [e for e in stores if e[2].endswith('__unit')]
+        if not vals or not units:
+            problems.append((o.loc, 'in-place conversion does not store both value and unit'))
+        final = {}
+        for e in stores:
+            final[e[2]] = e[3]
+        fvals = [x for k, x in final.items() if k.endswith('__value')]
+        funits = [x for k, x in final.items() if k.endswith('__unit')]
+        if any(not ctx.eq(x.term, fvals[0].term) for x in fvals[1:] if hasattr(x, 'term')):
+            problems.append((o.loc, 'private value copies disagree after in-place conversion'))
+        if len({_unit_name(x) for x in funits}) > 1:
+            problems.append((o.loc, 'private unit copies disagree after in-place conversion'))
+        need = _private_copies(model, kind)
+        missing = sorted(need - set(final))
+        if missing:
+            problems.append((o.loc, f'in-place conversion leaves stale private copies: {missing}'))
+        inplace_vals.append(ctx.subst(v1.term, subst) if subst else v1.term)
+    else:
+        problems.append((o.loc, f'to() returns {sx.show(v)[:60]}'))
+
+
+def _private_copies(model, kind):
+    return {f'_{c}{priv}' for priv in ('__value', '__unit') for c in model.mro(kind)
+            if c in model.classes and any(
+        isinstance(n, ast.Attribute) and n.attr == priv and isinstance(n.ctx, ast.Store)
+        for mm in model.classes[c].all_members() for n in ast.walk(mm.node))}
+
+
+def _concrete_to(sx, model, kind, fam, m, tables):
+    """fallback when to() consults something a symbolic unit cannot index (a second constant table, a chain of
+    literal unit tests): the unit table is finite, so every (present unit, target unit) pair is evaluated concretely"""
+    from sa.sx import U
+    problems, copy_vals, inplace_vals = [], [], []
+    units = list(tables.table_of(fam))
+    priv = sorted(f for f in _private_copies(model, kind) if f.endswith('__unit'))
+    saw_keyerror = False
+    paths = 0
+    for u in units + ['<not-a-unit>']:
+        for t in units + ['<not-a-unit>']:
+            if (u == '<not-a-unit>') == (t == '<not-a-unit>'):
+                if u == '<not-a-unit>':
+                    continue
+            if u == '<not-a-unit>':
+                continue
+            st = State()
+            for f in priv:
+                st.heap[('self', f)] = Uv(U(lit=u))
+            v0, _ = _final_value_unit(sx, kind, st)
+            S0 = v0.term * tables.factor(fam, u)
+            tv = Uv(U(lit=t)) if t != '<not-a-unit>' else Sv(t)
+            outs = sx.run(m.node, m.module, kind, Ov('self', kind, True), {'target_unit': tv}, st)
+            for o in outs:
+                paths += 1
+                if o.kind == 'raise':
+                    if o.value == 'KeyError' and t == '<not-a-unit>':
+                        saw_keyerror = True
+                    elif t != '<not-a-unit>' and o.value not in ('TypeError',):
+                        problems.append((o.loc, f'converting {u!r} to {t!r} raises {o.value}'))
+                    continue
+                if t == '<not-a-unit>':
+                    problems.append((o.loc, 'an unknown target unit is converted instead of rejected'))
+                    continue
+                before = len(problems)
+                _judge_to_outcome(sx, model, kind, o, S0, t, tables.factor(fam, t), {}, problems, copy_vals, inplace_vals)
+                problems[before:] = [(ln, f'{u!r} -> {t!r}: {w}') for ln, w in problems[before:]]
+    return problems, copy_vals, inplace_vals, saw_keyerror, paths
+
+
 def check_to(model, rep, sx: SX, tables: UnitTables, R='C05.to'):
     ctx = sx.ctx
     kinds = sorted(model.quantity_kinds())
@@ -117,19 +221,24 @@ def check_to(model, rep, sx: SX, tables: UnitTables, R='C05.to'):
             S0 = v0.term * Rat.atom(f'F[{fam}:{u0n}]')
             outs = sx.run(m.node, m.module, kind, Ov('self', kind, True))
         except CannotDecide as e:
-            rep.cannot(R, cons, str(e), m.loc)
-            continue
-        rep.inspect(len(outs))
-        copy_vals, inplace_vals = [], []
-        saw_keyerror = False
-        problems = []
+            try:
+                problems, copy_vals, inplace_vals, saw_keyerror, np = _concrete_to(sx, model, kind, fam, m, tables)
+            except CannotDecide as e2:
+                rep.cannot(R, cons, f'{e}; per-unit evaluation: {e2}', m.loc)
+                continue
+            rep.inspect(np)
+            outs = []
+            concrete = True
+        else:
+            concrete = False
+            rep.inspect(len(outs))
+            copy_vals, inplace_vals = [], []
+            saw_keyerror = False
+            problems = []
         for o in outs:
             if o.kind == 'raise':
                 if o.value == 'KeyError':
                     saw_keyerror = True
-                continue
-            if o.kind == 'fall':
-                problems.append((o.loc, 'a path falls off the end of to() without returning a quantity'))
                 continue
             # equal-unit guard: target_unit == self unit  =>  identify the two unit factors
             subst = {}
@@ -138,57 +247,8 @@ def check_to(model, rep, sx: SX, tables: UnitTables, R='C05.to'):
                     other = [k for k in g.key if k != 'target_unit']
                     if other:
                         subst[f'F[{fam}:target_unit]'] = Rat.atom(f'F[{fam}:{other[0]}]')
-            stores = [e for e in o.state.effects if e[0] == 'store' and e[1] == 'self']
-            v = o.value
-            if isinstance(v, Q):
-                if v.kind != kind:
-                    problems.append((o.loc, f'copying conversion returns a {v.kind}, not a {kind}'))
-                if stores:
-                    problems.append((o.loc, 'copying conversion modifies the receiver'))
-                if v.unit is None or v.unit.sym != 'target_unit':
-                    problems.append((o.loc, f'result is labelled {v.unit!r}, not the target unit'))
-                t = ctx.subst(v.term, subst) if subst else v.term
-                if not ctx.eq(t, S0):
-                    problems.append((o.loc, f'copying conversion changes the SI magnitude: '
-                                            f'{ctx.show(ctx.reduce(t))[:160]} instead of {ctx.show(S0)[:80]}'))
-                copy_vals.append(ctx.subst(v.term / Rat.atom(f'F[{fam}:target_unit]'), subst) if subst
-                                 else v.term / Rat.atom(f'F[{fam}:target_unit]'))
-            elif isinstance(v, Ov) and v.path == 'self':
-                try:
-                    v1, u1 = _final_value_unit(sx, kind, o.state)
-                except CannotDecide as e:
-                    problems.append((o.loc, f'state after in-place conversion not readable: {e}'))
-                    continue
-                if _unit_name(u1) != 'target_unit':
-                    problems.append((o.loc, f'in-place conversion leaves unit {_unit_name(u1)!r}, not the target unit'))
-                t = v1.term * Rat.atom(f'F[{fam}:target_unit]')
-                t = ctx.subst(t, subst) if subst else t
-                if not ctx.eq(t, S0):
-                    problems.append((o.loc, f'in-place conversion changes the SI magnitude: value becomes '
-                                            f'{ctx.show(ctx.reduce(v1.term))[:160]}'))
-                # all private copies must agree
-                vals = [e for e in stores if e[2].endswith('__value')]
-                units = [e for e in stores if e[2].endswith('__unit')]
-                if not vals or not units:
-                    problems.append((o.loc, 'in-place conversion does not store both value and unit'))
-                final = {}
-                for e in stores:
-                    final[e[2]] = e[3]
-                fvals = [x for k, x in final.items() if k.endswith('__value')]
-                funits = [x for k, x in final.items() if k.endswith('__unit')]
-                if any(not ctx.eq(x.term, fvals[0].term) for x in fvals[1:] if hasattr(x, 'term')):
-                    problems.append((o.loc, 'private value copies disagree after in-place conversion'))
-                if len({_unit_name(x) for x in funits}) > 1:
-                    problems.append((o.loc, 'private unit copies disagree after in-place conversion'))
-                need = {f'_{c}__value' for c in model.mro(kind) if c in model.classes and any(
-                    isinstance(n, ast.Attribute) and n.attr == '__value' and isinstance(n.ctx, ast.Store)
-                    for mm in model.classes[c].all_members() for n in ast.walk(mm.node))}
-                missing = sorted(need - set(final))
-                if missing:
-                    problems.append((o.loc, f'in-place conversion leaves stale private copies: {missing}'))
-                inplace_vals.append(ctx.subst(v1.term, subst) if subst else v1.term)
-            else:
-                problems.append((o.loc, f'to() returns {sx.show(v)[:60]}'))
+            _judge_to_outcome(sx, model, kind, o, S0, 'target_unit', Rat.atom(f'F[{fam}:target_unit]'), subst,
+                              problems, copy_vals, inplace_vals)
         if not copy_vals:
             problems.append((m.node.lineno, 'no copying path'))
         if not inplace_vals:
